@@ -135,6 +135,68 @@ func c09(c *Ctx) {
 	c.everyMessageDispatched("R09.I")
 	r.Rule("R09.U", "the table key is unique among the requests in flight: the id a request is registered under comes from the clock at 4 ns resolution (formula evaluated, = C10 R10.C) and is drawn under the send lock - a coarser id lets two callers share one entry, and the second registration replaces the first", 1)
 	c.msgIDFormula("R09.U")
+	// what is sent for a request is the encoder's rendering of that request, whole; what is decoded for a message is
+	// the message's body, whole
+	r.Rule("R09.B", "the body stored in the outgoing message is the result of tl.Marshal(request) itself, and the bytes handed to the decoder in processResponse are the message's GetMsg() itself (nothing trimmed, re-sliced or re-encoded in between)", 3)
+	if f := c.fn("R09.B", load.RootMod, "*MTProto", "sendPacket"); f != nil {
+		var body ssa.Value
+		for _, cs := range an.Calls(f) {
+			if cs.Name == load.TLPkg+".Marshal" {
+				args := an.CallArgs(cs.Common)
+				if len(args) == 1 {
+					if ci, ok := args[0].(*ssa.ChangeInterface); ok {
+						args[0] = ci.X
+					}
+				}
+				if len(args) == 1 && args[0] == ssa.Value(f.Params[1]) {
+					for _, ref := range *cs.Instr.(ssa.Value).Referrers() {
+						if ex, ok := ref.(*ssa.Extract); ok && ex.Index == 0 {
+							body = ex
+						}
+					}
+				}
+			}
+		}
+		n := 0
+		for _, b := range f.Blocks {
+			for _, in := range b.Instrs {
+				st, ok := in.(*ssa.Store)
+				if !ok {
+					continue
+				}
+				fa, ok := st.Addr.(*ssa.FieldAddr)
+				if !ok {
+					continue
+				}
+				fn := an.FieldName(fa.X.Type(), fa.Field)
+				if fn != "messages.Encrypted.Msg" && fn != "messages.Unencrypted.Msg" {
+					continue
+				}
+				n++
+				r.Check(body != nil && st.Val == body, "R09.B", "body:"+strings.TrimPrefix(fn, "messages."), c.pos(st.Pos()), "the body of the outgoing message is the value tl.Marshal returned for the request parameter")
+			}
+		}
+		if n == 0 {
+			r.Undecide("R09.B", "body", c.pos(f.Pos()), "no store to the Msg field of an outgoing message in sendPacket")
+		}
+	}
+	if f := c.fn("R09.B", load.RootMod, "*MTProto", "processResponse"); f != nil {
+		n := 0
+		for _, cs := range an.Calls(f) {
+			if cs.Name != load.TLPkg+".DecodeUnknownObject" {
+				continue
+			}
+			n++
+			ok := false
+			if call, isCall := cs.Common.Args[0].(*ssa.Call); isCall && call.Common().IsInvoke() && call.Common().Method.Name() == "GetMsg" && call.Common().Value == ssa.Value(f.Params[1]) {
+				ok = true
+			}
+			r.Check(ok, "R09.B", sprintf("decoded:the-message-body#%d", n), c.pos(cs.Pos()), "the bytes decoded are msg.GetMsg() of the message being processed")
+		}
+		if n == 0 {
+			r.Undecide("R09.B", "decoded:the-message-body", c.pos(f.Pos()), "no DecodeUnknownObject call in processResponse")
+		}
+	}
 	r.Rule("R09.W", "a result that travels gzip_packed inside rpc_result is delivered unwrapped: the value handed to writeRPCResponse in the rpc_result arm is the result's Obj or, behind a successful assertion to *GzipPacked, that wrapper's Obj", 1)
 	if pr := c.P.Func(load.RootMod, "*MTProto", "processResponse"); pr != nil {
 		n := 0
